@@ -182,7 +182,7 @@ def compare_results(rr: RunResult, shadow: G.Shadow):
     for vid, got in zip(rr.requested, rr.results):
         if shadow.random[vid]:
             continue
-        d = G.compare(np.asarray(got), shadow.values[vid], exact=shadow.exact[vid])
+        d = G.compare(np.asarray(got), shadow.values[vid], exact=shadow.exact[vid], lowprec=shadow.lowprec[vid])
         if d is not None:
             bad.append((vid, d))
     return bad
